@@ -488,12 +488,22 @@ func runC19(c *Ctx, r *Report) {
 					for _, d := range pc.At(in.Block()) {
 						var wf *types.Var
 						isDirKnown, isDirVal := false, false
+						// the classification tested by the listing decision: the IsDir result itself, or a
+						// variable (phi) that was initialised from it and that later branches test instead
+						fromPhi := false
 						for _, lt := range d {
 							if f2 := isWOField(lt.Atom); f2 != nil && lt.Val {
 								wf = f2
 							}
-							if call, ok := lt.Atom.(*ssa.Call); ok && call.Common().IsInvoke() && call.Common().Method.Name() == "IsDir" {
+							if call, ok := lt.Atom.(*ssa.Call); ok && call.Common().IsInvoke() && call.Common().Method.Name() == "IsDir" && !fromPhi {
 								isDirKnown, isDirVal = true, lt.Val
+							}
+							if phi, ok := lt.Atom.(*ssa.Phi); ok {
+								for _, e := range phi.Edges {
+									if call, ok := e.(*ssa.Call); ok && call.Common().IsInvoke() && call.Common().Method.Name() == "IsDir" {
+										isDirKnown, isDirVal, fromPhi = true, lt.Val, true
+									}
+								}
 							}
 						}
 						if wf != nil && isDirKnown {
